@@ -301,13 +301,112 @@ const SPARC_EXTRA: &[(&str, &str)] = &[
     ("i0", "g_r24"), ("i1", "g_r25"), ("i2", "g_r26"), ("i3", "g_r27"), ("i4", "g_r28"), ("i5", "g_r29"), ("i6", "g_r30"), ("i7", "g_r31"),
 ];
 
+/// Space `cross-context`: what one CPU's context knows must not depend on which other CPU's context was used
+/// before on the same thread. For every ordered pair (A, B) of the 9 context types and every spelling in the
+/// union of all register tables, aliases, extra spellings and junk: read the name through A (raw trait and
+/// MinidumpContext dispatch), then B must still know exactly its own names.
+fn cross_space() -> Space {
+    type Tab = (&'static str, fn() -> MinidumpRawContext, &'static [&'static str], &'static [(&'static str, &'static str)]);
+    fn tabs() -> Vec<Tab> {
+        vec![
+            ("x86", || MinidumpRawContext::X86(Default::default()), CONTEXT_X86::REGISTERS, &[]),
+            ("amd64", || MinidumpRawContext::Amd64(Default::default()), CONTEXT_AMD64::REGISTERS, &[]),
+            ("arm", || MinidumpRawContext::Arm(Default::default()), CONTEXT_ARM::REGISTERS, ARM_ALIASES),
+            ("arm64", || MinidumpRawContext::Arm64(Default::default()), CONTEXT_ARM64::REGISTERS, ARM64_ALIASES),
+            ("arm64_old", || MinidumpRawContext::OldArm64(Default::default()), CONTEXT_ARM64_OLD::REGISTERS, ARM64_ALIASES),
+            ("ppc", || MinidumpRawContext::Ppc(z()), CONTEXT_PPC::REGISTERS, &[]),
+            ("ppc64", || MinidumpRawContext::Ppc64(z()), CONTEXT_PPC64::REGISTERS, &[]),
+            ("mips", || MinidumpRawContext::Mips(Default::default()), CONTEXT_MIPS::REGISTERS, &[]),
+            ("sparc", || MinidumpRawContext::Sparc(z()), CONTEXT_SPARC::REGISTERS, &[]),
+        ]
+    }
+    let mut names: Vec<&'static str> = vec![];
+    for t in tabs() {
+        for n in t.2.iter().copied().chain(t.3.iter().map(|a| a.0)) {
+            if !names.contains(&n) {
+                names.push(n);
+            }
+        }
+    }
+    for n in SPARC_EXTRA.iter().map(|a| a.0).chain(JUNK.iter().copied()) {
+        if !names.contains(&n) {
+            names.push(n);
+        }
+    }
+    let names = std::sync::Arc::new(names);
+    let n_names = names.len() as u64;
+    let len = 9 * 9 * n_names;
+    let names2 = names.clone();
+    let run = move |idx: u64, l: &mut Local| {
+        let d = unrank(idx, &[9, 9, n_names]);
+        let (ta, tb, n) = (&tabs()[d[0] as usize], &tabs()[d[1] as usize], names[d[2] as usize]);
+        l.eval();
+        // 1. the name goes through A
+        let a = MinidumpContext::from_raw((ta.1)());
+        let first = guard(|| a.get_register(n).is_some());
+        if let Err(p) = &first {
+            l.panic_violation(p, json!({"first_context": ta.0, "name": n}));
+            return;
+        }
+        // 2. B knows exactly its own names
+        let known = tb.2.contains(&n) || tb.3.iter().any(|x| x.0 == n);
+        let mut b = MinidumpContext::from_raw((tb.1)());
+        let got = guard(|| {
+            let r = b.get_register(n).is_some();
+            let set = b.raw_set(n);
+            (r, set)
+        });
+        match got {
+            Err(p) => l.panic_violation(&p, json!({"first_context": ta.0, "second_context": tb.0, "name": n, "known_to_second": known})),
+            Ok((r, set)) => {
+                l.outcome(if known { "known-to-second" } else { "unknown-to-second" });
+                // SPARC: set_register also accepts the short window names (carve-out stated under assumptions)
+                let set_known = known || (tb.0 == "sparc" && SPARC_EXTRA.iter().any(|x| x.0 == n));
+                if r != known || set != set_known {
+                    l.violation(
+                        "c18:cross-context:knowledge-of-a-name-depends-on-history",
+                        format!("after reading {n:?} through a {} context, a {} context answers get_register -> {} / set_register -> {} although the name is {} one of its registers", ta.0, tb.0, if r { "Some" } else { "None" }, if set { "Some" } else { "None" }, if known { "" } else { "not" }),
+                        json!({"first_context": ta.0, "second_context": tb.0, "name": n}),
+                    );
+                }
+                l.distinct(&("cross", tb.0, n, r));
+            }
+        }
+    };
+    Space::new("cross-context", len, run, move |idx| {
+        let d = unrank(idx, &[9, 9, n_names]);
+        json!({"class": "cross-context", "first": tabs()[d[0] as usize].0, "second": tabs()[d[1] as usize].0, "name": names2[d[2] as usize]})
+    })
+    // whole space on one worker: the history lives in the thread
+    .chunked(len)
+}
+
+trait RawSet {
+    fn raw_set(&mut self, name: &str) -> bool;
+}
+impl RawSet for MinidumpContext {
+    fn raw_set(&mut self, name: &str) -> bool {
+        match &mut self.raw {
+            MinidumpRawContext::X86(c) => c.set_register(name, 1).is_some(),
+            MinidumpRawContext::Amd64(c) => c.set_register(name, 1).is_some(),
+            MinidumpRawContext::Arm(c) => c.set_register(name, 1).is_some(),
+            MinidumpRawContext::Arm64(c) => c.set_register(name, 1).is_some(),
+            MinidumpRawContext::OldArm64(c) => c.set_register(name, 1).is_some(),
+            MinidumpRawContext::Ppc(c) => c.set_register(name, 1).is_some(),
+            MinidumpRawContext::Ppc64(c) => c.set_register(name, 1).is_some(),
+            MinidumpRawContext::Mips(c) => c.set_register(name, 1).is_some(),
+            MinidumpRawContext::Sparc(c) => c.set_register(name, 1).is_some(),
+        }
+    }
+}
+
 fn main() {
     run_check("C18", |ctx| {
         let d = ctx.tier.pick(2, 3);
         let mut def = CheckDef::new(
             "C18",
             "model_checking",
-            "explicit-state: every sequence of set(name,value) operations up to the depth bound over {canonical names, documented aliases, extra accepted spellings, unknown names} x 3 values, replayed on the real context from two start states (default, all-pattern); in every reached state every name is read through every accessor and compared with a map model; validity-set classes (empty, every singleton by name and alias, full) are checked in states of depth <= 1. distinct_nontrivial = distinct model states reached (context kind, register map).",
+            "explicit-state: every sequence of set(name,value) operations up to the depth bound over {canonical names, documented aliases, extra accepted spellings, unknown names} x 3 values, replayed on the real context from two start states (default, all-pattern); in every reached state every name is read through every accessor and compared with a map model; validity-set classes (empty, every singleton by name and alias, full) are checked in states of depth <= 1. Space cross-context: for every ordered pair of context types and every spelling of the union of all tables, the name is read through the first type and the second must then know exactly its own names (one worker thread, so per-thread history accumulates). distinct_nontrivial = distinct model states reached (context kind, register map).",
         );
         def.assumptions = vec![
             "alias tables (ARM r11/r13/r14/r15, ARM64 x29/x30) and SPARC short names are taken from the documentation of context.rs, not derived from the implementation".into(),
@@ -326,6 +425,7 @@ fn main() {
             space_for(Kind::<CONTEXT_MIPS> { kind: "mips", mk: Default::default, aliases: &[], extra: &[], sp: "sp", ip: "pc", wrap: MinidumpRawContext::Mips }, d),
             space_for(Kind::<CONTEXT_SPARC> { kind: "sparc", mk: z, aliases: &[], extra: SPARC_EXTRA, sp: "g_r14", ip: "pc", wrap: MinidumpRawContext::Sparc }, d),
         ];
+        def.spaces.push(cross_space());
         def.finish = Some(Box::new(|total, extra| {
             let states = total.distinct.len() as u64;
             let transitions = total.counters.get("transitions").copied().unwrap_or(0);
